@@ -14,23 +14,24 @@ EXTENDS Naturals, Sequences, TLC
 
 CONSTANT N              \* length of the scripts
 
-VARIABLES a, b, hist    \* A live, B live, operations so far
-vars == <<a, b, hist>>
+VARIABLES a, b, adl, hist    \* A live, B live, A still has its downlink PDRs, operations so far
+vars == <<a, b, adl, hist>>
 
 OpsA == {"A:fwd0", "A:fwd1", "A:buff", "A:drop", "A:rmflow", "A:qer"}   \* downlink state of A, a flow of A removed, A's QER updated
 OpsB == {"B:fwd1"}                                                       \* B moves to the other gNB
 
-Init == a = FALSE /\ b = FALSE /\ hist = <<>>
+Init == a = FALSE /\ b = FALSE /\ adl = TRUE /\ hist = <<>>
 
 Do(op) == hist' = Append(hist, op)
 Next ==
   /\ Len(hist) < N
-  /\ \/ ~a /\ a' = TRUE /\ UNCHANGED b /\ Do("EA")                       \* establish A
-     \/ ~b /\ b' = TRUE /\ UNCHANGED a /\ Do("EB")                       \* establish B
-     \/ a /\ UNCHANGED <<a, b>> /\ \E op \in OpsA : Do(op)
-     \/ b /\ UNCHANGED <<a, b>> /\ \E op \in OpsB : Do(op)
-     \/ a /\ a' = FALSE /\ UNCHANGED b /\ (Do("DA") \/ Do("XA"))         \* delete A / release A's association
-     \/ b /\ b' = FALSE /\ UNCHANGED a /\ Do("DB")                       \* delete B
+  /\ \/ ~a /\ a' = TRUE /\ adl' = TRUE /\ UNCHANGED b /\ Do("EA")         \* establish A
+     \/ ~b /\ b' = TRUE /\ UNCHANGED <<a, adl>> /\ Do("EB")                \* establish B
+     \/ a /\ adl /\ UNCHANGED <<a, b, adl>> /\ \E op \in OpsA : Do(op)
+     \/ a /\ adl /\ adl' = FALSE /\ UNCHANGED <<a, b>> /\ Do("A:rmdl")     \* A's downlink PDRs and FARs are removed, the uplink ones stay
+     \/ b /\ UNCHANGED <<a, b, adl>> /\ \E op \in OpsB : Do(op)
+     \/ a /\ a' = FALSE /\ UNCHANGED <<b, adl>> /\ (Do("DA") \/ Do("XA"))  \* delete A / release A's association
+     \/ b /\ b' = FALSE /\ UNCHANGED <<a, adl>> /\ Do("DB")                \* delete B
 Spec == Init /\ [][Next]_vars
 
 \* always true; prints the complete scripts
